@@ -74,6 +74,8 @@ def plan():
             if name == 'label_4' and m != 20:
                 continue
             if name in ('bx_loop3_head', 'bx_loop4_head') and m not in M2:
+                # (one query with the mode symbolic over the nine was tried: 21 min instead of nine parallel 11 min queries;
+                # build() still accepts a tuple of modes)
                 continue
             if name == 'bx_loop5_head' and m in (10, 20):
                 continue
@@ -160,8 +162,10 @@ def build(db, spec_path, k, mode):
     parts.append(seg)
     # ---- harness ---------------------------------------------------------------------------------------------------------
     cname = (['entry'] + CUTS)[k]
-    tag = 'decay0_bb seg@%s mode %d' % (cname, mode)
-    e0f = e0f_expr(mode)
+    mset = tuple(mode) if isinstance(mode, (tuple, list)) else (mode,)
+    tag = 'decay0_bb seg@%s mode %s' % (cname, mode if len(mset) == 1 and not isinstance(mode, (tuple, list)) else 'in {%s}' % ','.join(str(x) for x in mset))
+    e0f = e0f_expr(mset[0])
+    assert len({e0f_expr(x) for x in mset}) == 1
 
     def cl(t):
         return t.replace('E0F', 'bb_e0f')
@@ -175,7 +179,10 @@ def build(db, spec_path, k, mode):
                     ('bx_base_helpbb.e0', 'double'), ('bx_base_helpbb.e1', 'double')):
         H.append('  S.%s = nondet_double();' % fld)
     H.append('  S.bx_base_denrange.mode = nondet_int(); S.istartbb = nondet_int();')
-    H.append('  S.modebb = %d;' % mode)
+    if len(mset) == 1:
+        H.append('  S.modebb = %d;' % mset[0])
+    else:
+        H.append('  S.modebb = nondet_int(); __CPROVER_assume(%s);' % ' || '.join('S.modebb == %d' % x for x in mset))
     H.append('  const double bb_e0f = %s;' % e0f)
     for r_ in sp['requires']:
         H.append('  __CPROVER_assume(%s);' % cl(r_))
@@ -200,7 +207,7 @@ def build(db, spec_path, k, mode):
         H.append('  x_chip_T = &S.bx_base_eta_nme.chip_T; x_chip_P = &S.bx_base_eta_nme.chip_P; x_chip_R = &S.bx_base_eta_nme.chip_R;')
         H.append('  x_Qbb = &S.Qbb; x_Edlevel = &S.Edlevel; x_EK = &S.EK; x_Zdbb = &S.Zdbb; x_Adbb = &S.Adbb; x_istartbb = &S.istartbb; x_spthe1 = S.spthe1; x_spthe2 = S.spthe2; x_spmax = &S.spmax;')
         H.append('  x_pi = 3.14159265358979323846; x_twopi = 2. * x_pi; x_emass = decay0_emass(); x_emass2 = x_emass * x_emass;')
-        mine = [x for modes, where, x in sp['ensures'] if where == cname and (modes is None or mode in modes)]
+        mine = [x for modes, where, x in sp['ensures'] if where == cname and (modes is None or all(x_ in modes for x_ in mset))]
         for x in sp['invariant'] + sp['at'].get(cname, []) + mine:
             H.append('  __CPROVER_assume(%s);' % cl(x))
     H.append('  int nx = bb_seg(%d);' % k)
@@ -213,7 +220,8 @@ def build(db, spec_path, k, mode):
         for j, x in enumerate(xs_):
             H.append('  __CPROVER_assert(nx != %d || (%s), "C08 %s: loop invariant #%d of %s holds on arrival");' % (ids[c_], cl(x), tag, j + 1, c_))
     for modes, where, x in sp['ensures']:
-        if modes is not None and mode not in modes:
+        if modes is not None and not all(x_ in modes for x_ in mset):
+            assert not any(x_ in modes for x_ in mset), 'mode set straddles an ensures clause'
             continue
         tgt = segments.BX_EXIT if where == 'exit' else ids[where]
         prop = 'C03'
@@ -222,7 +230,7 @@ def build(db, spec_path, k, mode):
     H.append('  __CPROVER_assert(0, "canary %s: harness end is reachable (must be refuted)");' % tag)
     H.append('}')
     parts.append('\n'.join(H))
-    meta = {'function': 'decay0_bb', 'what': 'bbk', 'cut': cname, 'mode': mode, 'cuts': CUTS,
+    meta = {'function': 'decay0_bb', 'what': 'bbk', 'cut': cname, 'mode': list(mset), 'cuts': CUTS,
             'stubs': sorted(callees), 'inlined': inl}
     return {'c': '\n\n'.join(parts) + '\n', 'entry': 'harness', 'meta': meta}
 
